@@ -35,6 +35,7 @@ impl Outcome {
             Outcome::Intr => "intr",
         }
     }
+    #[allow(dead_code)]
     fn kind(&self) -> &'static str {
         match self {
             Outcome::Ok => "",
@@ -47,7 +48,9 @@ impl Outcome {
 #[derive(Default)]
 pub struct Shared {
     pub script: VecDeque<Outcome>,
-    pub attempts: Vec<(Vec<u8>, Outcome)>,
+    pub attempts: Vec<(Vec<u8>, Outcome, String)>,
+    /// error kind of every failed attempt, in order (any io::ErrorKind but Interrupted, which BufWriter retries)
+    pub nerr: usize,
 }
 
 /// All-or-nothing datagram writer with a scripted outcome per attempt that records every attempt.
@@ -56,11 +59,22 @@ impl Write for ScriptedWriter {
     fn write(&mut self, b: &[u8]) -> io::Result<usize> {
         let mut s = self.0.lock().unwrap();
         let o = s.script.pop_front().unwrap_or(Outcome::Ok);
-        s.attempts.push((b.to_vec(), o));
         match o {
-            Outcome::Ok => Ok(b.len()),
-            Outcome::Err => Err(io::Error::new(io::ErrorKind::ConnectionRefused, "injected")),
-            Outcome::Intr => Err(io::Error::new(io::ErrorKind::Interrupted, "injected")),
+            Outcome::Ok => {
+                s.attempts.push((b.to_vec(), o, String::new()));
+                Ok(b.len())
+            }
+            Outcome::Err => {
+                let ks: Vec<io::ErrorKind> = crate::client::ALL_KINDS.iter().map(|k| k.1).filter(|k| *k != io::ErrorKind::Interrupted).collect();
+                let k = ks[s.nerr % ks.len()];
+                s.nerr += 1;
+                s.attempts.push((b.to_vec(), o, format!("{:?}", k)));
+                Err(io::Error::new(k, "injected"))
+            }
+            Outcome::Intr => {
+                s.attempts.push((b.to_vec(), o, "Interrupted".into()));
+                Err(io::Error::new(io::ErrorKind::Interrupted, "injected"))
+            }
         }
     }
     fn flush(&mut self) -> io::Result<()> {
@@ -96,9 +110,9 @@ impl<'a> Rec<'a> {
     fn call(&self, op: &str, bytes: &[u8]) {
         self.t.ev(json!({"ev":"call","op":op,"hex":hex(bytes),"len":bytes.len()}));
     }
-    fn atts(&self, atts: &[(Vec<u8>, Outcome)]) {
-        for (d, o) in atts {
-            self.t.ev(json!({"ev":"att","hex":hex(d),"len":d.len(),"ok":*o==Outcome::Ok,"kind":o.kind()}));
+    fn atts(&self, atts: &[(Vec<u8>, Outcome, String)]) {
+        for (d, o, k) in atts {
+            self.t.ev(json!({"ev":"att","hex":hex(d),"len":d.len(),"ok":*o==Outcome::Ok,"kind":k}));
         }
     }
     fn ret(&self, r: &Result<usize, String>) {
@@ -119,16 +133,16 @@ struct Session {
     seen: usize,
 }
 enum CallRes {
-    Done(Result<usize, String>, Vec<(Vec<u8>, Outcome)>, (usize, usize, usize)),
-    Panicked(Vec<(Vec<u8>, Outcome)>),
+    Done(Result<usize, String>, Vec<(Vec<u8>, Outcome, String)>, (usize, usize, usize)),
+    Panicked(Vec<(Vec<u8>, Outcome, String)>),
 }
 impl Session {
     fn new(cap: usize, term: &[u8], script: Vec<Outcome>) -> Session {
-        let sh = Arc::new(Mutex::new(Shared { script: script.into(), attempts: vec![] }));
+        let sh = Arc::new(Mutex::new(Shared { script: script.into(), attempts: vec![], nerr: 0 }));
         let w = MultiLineWriter::with_ending(ScriptedWriter(sh.clone()), cap, std::str::from_utf8(term).unwrap());
         Session { w: Some(w), sh, seen: 0 }
     }
-    fn new_attempts(&mut self) -> Vec<(Vec<u8>, Outcome)> {
+    fn new_attempts(&mut self) -> Vec<(Vec<u8>, Outcome, String)> {
         let s = self.sh.lock().unwrap_or_else(|e| e.into_inner());
         let v = s.attempts[self.seen..].to_vec();
         self.seen = s.attempts.len();
@@ -236,10 +250,16 @@ pub fn replay(a: &Args) {
                         Err(c["kind"].as_str().unwrap().to_string())
                     };
                     let mut why = vec![];
-                    if exp_atts != atts {
-                        why.push(format!("attempts: model {:?} code {:?}", show(&exp_atts), show(&atts)));
+                    let got_atts: Vec<(Vec<u8>, Outcome)> = atts.iter().map(|(d, o, _)| (d.clone(), *o)).collect();
+                    if exp_atts != got_atts {
+                        why.push(format!("attempts: model {:?} code {:?}", show(&exp_atts), show(&got_atts)));
                     }
-                    if exp_res != res {
+                    // the model has one generic error kind; the harness rotates through all io::ErrorKinds
+                    let res_cmp: Result<usize, String> = match &res {
+                        Err(k) if k != "Interrupted" => Err("ConnectionRefused".into()),
+                        other => other.clone(),
+                    };
+                    if exp_res != res_cmp {
                         why.push(format!("result: model {:?} code {:?}", exp_res, res));
                     }
                     if op != "drop" {
